@@ -22,6 +22,7 @@ type qnode struct {
 	deps   []int // indices (for an alias: exactly one)
 	inputs []string
 	isTest bool
+	dupFirstDep bool // the first dependency is declared twice
 }
 
 func queryLines(out string) []string {
@@ -92,6 +93,13 @@ func c20Workspaces(thorough bool) [][]qnode {
 			return ns
 		}
 		out = append(out, mk())
+		if mask != 0 && (thorough || mask%4 == 3) {
+			dup := mk()
+			for i := range dup {
+				dup[i].dupFirstDep = len(dup[i].deps) > 0
+			}
+			out = append(out, dup)
+		}
 		// alias variants: replace one existing edge (d -> x) by (d -> al -> x)
 		for i, p := range pairs {
 			if mask&(1<<i) == 0 {
@@ -127,8 +135,16 @@ func c20Source(ns []qnode) *hist.Source {
 			continue
 		}
 		var deps []string
-		for _, d := range n.deps {
+		for di, d := range n.deps {
 			deps = append(deps, ns[d].label)
+			if n.dupFirstDep && di == 0 {
+				// the same dependency a second time, spelled differently where that is possible
+				if ns[d].pkg == n.pkg && !ns[d].alias {
+					deps = append(deps, ":"+ns[d].name)
+				} else {
+					deps = append(deps, ns[d].label)
+				}
+			}
 		}
 		s.Targets = append(s.Targets, hist.Target{Pkg: n.pkg, Name: n.name, Command: traceStart, Inputs: n.inputs, Deps: deps})
 		for _, in := range n.inputs {
@@ -147,7 +163,7 @@ func c20Source(ns []qnode) *hist.Source {
 
 func init() {
 	Registry["C20"] = func(c *Ctx) {
-		c.R.Rule = "every workspace of a family (4 targets in two packages, every subset of the 6 possible lower->higher dependency edges = all DAG shapes incl. diamonds, plus variants in which one edge goes through an alias; one target is a test target) is materialised on disk and queried with the REAL binary: grog deps / deps -t / rdeps / rdeps -t for every node, --target-type=test|no_test, grog owners for every input file (incl. a file shared by two targets, glob-resolved files, a same-named file in another package and an unowned file), grog list for 8 pattern forms. Printed label sets must equal reference reachability sets, each label printed once, deps* and rdeps* must be mutual inverses. Second part: every single-file edit of the C01 model workspace followed by a build started in each directory of the workspace in turn: executed targets ⊆ owners(f) ∪ rdeps*(owners(f)) as printed by the binary itself. Non-trivial = a query whose expected answer is non-empty. One target name exists in two packages (a target may depend on both). A workspace in which an unrelated target has two outputs of very different size: editing another target's input must not re-execute it (3 rounds)."
+		c.R.Rule = "every workspace of a family (4 targets in two packages, every subset of the 6 possible lower->higher dependency edges = all DAG shapes incl. diamonds, plus variants in which one edge goes through an alias; one target is a test target) is materialised on disk and queried with the REAL binary: grog deps / deps -t / rdeps / rdeps -t for every node, --target-type=test|no_test, grog owners for every input file (incl. a file shared by two targets, glob-resolved files, a same-named file in another package and an unowned file), grog list for 8 pattern forms. Printed label sets must equal reference reachability sets, each label printed once, deps* and rdeps* must be mutual inverses. Second part: every single-file edit of the C01 model workspace followed by a build started in each directory of the workspace in turn: executed targets ⊆ owners(f) ∪ rdeps*(owners(f)) as printed by the binary itself. Non-trivial = a query whose expected answer is non-empty. Variants in which every target declares its first dependency twice (second time spelled relatively): still each label once. One target name exists in two packages (a target may depend on both). A workspace in which an unrelated target has two outputs of very different size: editing another target's input must not re-execute it (3 rounds)."
 		c.R.Assume("edit part: regular input files only; a file that is an input only through a symbolic link is not an input file by its own path and is left out (symlinked inputs are covered by C01)", "stdout lines starting with // are the answer of a query command", "with --target-type other than all only target labels are compared (alias nodes are not typed)")
 		grog, err := vc.BuildGrog("grog", nil)
 		if err != nil {
